@@ -54,6 +54,19 @@ def check(run):
         for li, plan in enumerate(layouts(rng, keys, dels)):
             cfg = {"storage": "ram", "blocklimit": rng.choice([None, 1, 2, 3]), "compound": rng.random() < 0.7,
                    "layout": li, "limitmb": rng.choice([None, None, 0.0002, 0.001])}
+            if li == 3 and wi % 2 == 0:
+                # the last partition through another writer front-end (sub-writers in processes, merged into one
+                # segment or kept apart while the commit's merge policy still runs over the older segments; the
+                # asynchronous writer)
+                cfg = {"storage": "file", "compound": True, "layout": li,
+                       **rng.choice([{"frontend": "mp", "procs": 2, "batchsize": 2, "multisegment": True},
+                                     {"frontend": "mp", "procs": 2, "batchsize": 2, "multisegment": True},
+                                     {"frontend": "mp", "procs": 3, "batchsize": 1, "multisegment": False},
+                                     {"frontend": "async"}])}
+                # ... and its last adding commit optimises (merges the older segments into the writer's own one)
+                last = max(i for i, st in enumerate(plan) if st[0] == "commit" and st[1])
+                plan = list(plan)
+                plan[last] = ("commit", plan[last][1], {"optimize": True})
             w = cworld.CWorld(cfg, variant=wi)
             try:
                 try:
@@ -83,6 +96,48 @@ def check(run):
                 cases.append({"idx": idx, "obs": obs, "cfg": cfg, "plan": plan, "seed": wi, "adocs": adocs, "variant": wi})
             finally:
                 w.close()
+    # a removed field is physically gone after optimising: adding a field of the same name later must not bring
+    # the old values back (whatever the number of segments at the time of the optimising commit)
+    import copy
+    from whoosh import fields as wfields
+    for si in range(2 if quick else 8):
+        keys = ["r%d" % i for i in range(6)]
+        adocs = dict((k, cworld.rand_adoc(rng, k)) for k in keys)
+        for k in keys[:4]:
+            adocs[k]["s"]["tags"] = adocs[k]["c"]["tags"] = rng.randrange(1, len(cworld.POOLS["tags"]) + 1)
+        nseg = 1 if si % 2 == 0 else 2
+        plan = [("commit", keys, {"optimize": True})] if nseg == 1 else \
+            [("commit", keys[:3], {"merge": False}), ("commit", keys[3:], {"merge": False})]
+        cfg = {"storage": rng.choice(["ram", "file"]), "compound": rng.random() < 0.7, "scenario": "field removed, index optimised, field added again",
+               "segments_when_optimised": nseg}
+        w = cworld.CWorld(cfg, variant=si)
+        try:
+            try:
+                w.run(adocs, plan)
+                tagstype = copy.deepcopy(w.schema["tags"])
+                wr = w.ix.writer()
+                wr.remove_field("tags")
+                wr.commit(optimize=True)
+                wr = w.ix.writer()
+                wr.add_field("tags", tagstype)
+                wr.commit()
+                gone = copy.deepcopy(adocs)
+                for d in gone.values():
+                    d["s"].pop("tags", None)
+                    d["c"].pop("tags", None)
+                with w.reader() as rd:
+                    idx = cworld.abstract_index(rd, gone)
+                    obs = cworld.dump(rd, idx, rd.schema, rng=rng, maxterms=6, plan=plan)
+                    obs.append({"kind": "flag", "path": "no term of the removed field is left", "value": len(list(rd.lexicon("tags"))) == 0})
+                    run.count(len(obs))
+                cases.append({"idx": idx, "obs": obs, "cfg": cfg, "plan": plan, "seed": si, "adocs": gone, "variant": si})
+            except Exception as ex:
+                cases.append({"idx": {"docs": []}, "obs": [{"kind": "error", "path": "removed-field scenario",
+                                                            "err": type(ex).__name__, "msg": str(ex)[:160],
+                                                            "where": content.where(ex)}],
+                              "cfg": cfg, "plan": plan, "seed": si, "adocs": adocs, "variant": si})
+        finally:
+            w.close()
     rejects = content.judge(run, cases)
     content.report(run, "c06", cases, rejects)
 
